@@ -73,6 +73,16 @@ CHECKS = {
         note="Trusted: the stated persistence model (fsync makes content + namespace durable; unsynced data may be lost wholly/partly; "
              "unsynced truncation may persist); trace fidelity (raw-level FileIO tracing, cross-checked with strace by hand).",
         design="3/C17"),
+    "C19": dict(
+        category="exploration",
+        technique="stateful property-based testing (Hypothesis rule-based state machine, ddmin over the operation list) against a list-of-rows model",
+        text="Generated histories of create/insert/batch-insert/re-insert/index/rindex/add-column and observation operations (column "
+             "read, #t, .schema, SQL through .db) run as Klong source; every observation is compared with a list-of-rows model "
+             "(insertion order when unindexed, one row per key ordered by key when indexed). Observations are rules of their own, so "
+             "reads directly after inserts are generated. Exploration-level.",
+        note="Trusted: the row model; numeric comparison of cell values; DuckDB results compared flattened (klongpy squeezes them); "
+             "index columns unique when .index is called.",
+        design="3/C19"),
 }
 
 NOT_APPLICABLE = {
